@@ -26,7 +26,7 @@ type scannerSite struct {
 // function exit asks the scanner for its error and treats it as a failure.
 // errVerdicts maps call instructions to the ERR-HANDLE/ERR-DROP verdict.
 func (c *Ctx) RuleScanErr() *Result {
-	res := &Result{Rule: "SCAN-ERR", MinInst: 8}
+	res := &Result{Rule: "SCAN-ERR", MinInst: 5}
 	handle := c.ErrVerdicts()
 	var sites []scannerSite
 	for _, fn := range c.P.RepoFns {
